@@ -43,7 +43,7 @@ def q(xs):
 
 
 def gen_cfg(cmds, depth, mode, mailkinds=("ok",), rcptkinds=("a1", "b"), bodykinds=("ok",), hookkinds=("none",), maxrcpts=(3,),
-            start_in_tx=False, bound="Bound"):
+            start_in_tx=False, bound="Bound", only_ok=False):
     """mode: mc (exhaustive check of the contract model, no history) | bfs (every sequence to depth) |
     tour (every edge of the state graph once, with characterising suffix) | sim (for -simulate)"""
     record = mode != "mc"
@@ -58,7 +58,7 @@ def gen_cfg(cmds, depth, mode, mailkinds=("ok",), rcptkinds=("a1", "b"), bodykin
         d["invariants"] = "EmitTour"
     else:
         d["invariants"] = "Emit"
-    return (GEN_CFG % d).replace("  Record = ", "  StartInTx = %s\n  Record = " % ("TRUE" if start_in_tx else "FALSE"))
+    return (GEN_CFG % d).replace("  Record = ", "  StartInTx = %s\n  OnlyOk = %s\n  Record = " % ("TRUE" if start_in_tx else "FALSE", "TRUE" if only_ok else "FALSE"))
 
 
 # ----------------------------------------------------------------------------- concretisation
@@ -102,6 +102,9 @@ class Concretiser:
                                      discard=["discard.example"], rejectOrigin=["*.spam.example"])
         self.hook = hook
         self.nbody = 0
+        self.mixed_cfg = False
+        self.origins = None       # C05: sender domains to rotate through for accepted-syntax MAIL commands
+        self.norigin = 0
         # recipient classes: address, domain
         self.rc = {
             "a1": ("alice", "store.example", "alice@store.example"),
@@ -136,7 +139,7 @@ class Concretiser:
         return e
 
     def spell_cfg(self, d):
-        return d
+        return mixcase(d, self.rng) if self.mixed_cfg else d
 
     def cfg(self):
         p = dict(self.policy)
@@ -166,11 +169,11 @@ class Concretiser:
                 abs_.update(sender={"addr": "<%s>" % addr}, domchars=list(dom))
                 return self.line(abs_, text)
             if k == "sizebig":
-                abs_["declared"] = self.max_bytes + 1
-                params = " SIZE=%d" % (self.max_bytes + 1)
+                abs_["declared"] = rng.choice([self.max_bytes + 1, 2 * self.max_bytes, 10 * self.max_bytes])
+                params = " SIZE=%d" % abs_["declared"]
             elif k == "sizeok":
-                abs_["declared"] = self.max_bytes
-                params = " SIZE=%d BODY=8BITMIME" % self.max_bytes
+                abs_["declared"] = rng.choice([1, self.max_bytes // 2, self.max_bytes - 1, self.max_bytes])
+                params = rng.choice([" SIZE=%d BODY=8BITMIME", " SIZE=%d", " BODY=7BIT SIZE=%d"]) % abs_["declared"]
             elif k == "sizebad":
                 abs_["sizeparse"] = False
                 params = " SIZE=12x4"
@@ -182,6 +185,10 @@ class Concretiser:
                 addr = "sender@" + dom
             elif k == "null":
                 addr, dom = "", ""
+            elif self.origins:
+                dom = self.origins[self.norigin % len(self.origins)]
+                self.norigin += 1
+                addr = "sender@" + mixcase(dom, rng)
             abs_.update(sender={"addr": ("<%s>" % addr) if addr else ""}, domchars=list(dom))
             if a.get("hook", "none") != "none":
                 abs_["hook"] = self.hook_answer(a["hook"])
@@ -200,7 +207,7 @@ class Concretiser:
         simple = {
             "rset": "RSET", "noop": "NOOP", "vrfy": "VRFY someone", "unimpl": rng.choice(["SEND x", "SOML", "SAML", "EXPN list", "HELP", "TURN"]),
             "unknown": rng.choice(["FOOB", "XYZZY arg", "MAILX FROM:<a@b.c>", "RCPTT"]), "short": rng.choice(["HI", "A B", "OK."]),
-            "empty": "", "garbage": "\x00\x01\xfe\xff\x80 \x7f\x1b[2J", "long": "NOOP " + "x" * 70000,
+            "empty": "", "garbage": "\x00\x01\xfe\xff\x80 \x7f\x1b[2J", "long": "XLONG" + "x" * 70000,
             "starttls": "STARTTLS", "authother": "AUTH CRAM-MD5", "authplainnoarg": "AUTH PLAIN", "authplain": "AUTH PLAIN dGVzdAB0ZXN0AHRlc3Q=",
             "authlogin": "AUTH LOGIN", "cred": "dXNlcg==", "credquit": "QUIT", "credempty": "", "quit": "QUIT",
         }
@@ -217,10 +224,11 @@ class Concretiser:
     def body(self, k):
         self.nbody += 1
         n = self.nbody
-        subject = "subject %d %s" % (n, self.rng.choice(["plain", "with: colon", "x" * 30]))
+        rng = self.rng
+        subject = "subject %d %s" % (n, rng.choice(["plain", "with: colon", "x" * 30]))
         abs_ = dict(c="body", parse=True, fromhdr="", tohdr=False, to=[], subject="")
         lines = []
-        if k in ("ok", "big"):
+        if k in ("ok", "big", "fitlarge"):
             abs_.update(fromhdr="Header From <hf%d@h.example>" % n, tohdr=True, to=["<t1@x.example>", "Tee Two <t2@x.example>"], subject=subject)
             lines += ["From: Header From <hf%d@h.example>" % n, "To: t1@x.example, Tee Two <t2@x.example>", "Subject: " + subject,
                       "Message-Id: <%d@verif>" % n, ""]
@@ -230,11 +238,24 @@ class Concretiser:
             abs_["parse"] = False
             lines += [" continuation line first", "Subject: " + subject, ""]
         lines += ["body line %d" % n, ".leading dot", "..two dots", "", "last line"]
+        target = None
         if k == "big":
-            pad = "p" * 70
-            lines += [pad] * (self.max_bytes // 72 + 20)
+            target = rng.choice([self.max_bytes + 300, self.max_bytes + 600, 2 * self.max_bytes, 10 * self.max_bytes])
+        elif k == "fitlarge":
+            target = rng.choice([self.max_bytes - 300, self.max_bytes - 600])
+        if target is not None:
+            # "size" is read generously: a big body exceeds the limit by >= 300 bytes even when counted with LF
+            # line ends (as the server stores it); a fitting one stays >= 300 under it even counted with CRLF
+            nl = 1 if k == "big" else 2
+            cur = sum(len(x) + nl for x in lines)
+            pad = "p" * 900
+            while cur + len(pad) + nl <= target:
+                lines.append(pad)
+                cur += len(pad) + nl
+            if target - cur > nl:
+                lines.append("q" * (target - cur - nl))
         data = ("\r\n".join(lines) + "\r\n").encode("latin-1")
-        abs_["size"] = len(data)
+        abs_["size"] = len(canon(data)) + 1 if k == "big" else len(data)
         abs_["bodyhash"] = bodyhash(data)
         return {"kind": "body", "abs": abs_, "send": latin(dot_stuff(data))}
 
@@ -340,3 +361,136 @@ def c01(run, args):
                        "non-trivial = reaches the end of a DATA block or has >= 2 MAIL/RCPT; distinct = distinct abstract dialogue")
     run.assumptions += ["recipient addresses are ordinary (corner cases of naming are C04)", "a store failure in the middle of a multi-recipient fan-out is not injected",
                         "quick tier: one naming mode x policy x store per dialogue (rotating); thorough: all 3 x 4 x 2"]
+
+
+def report_crashes(run, crashes, what):
+    for c in crashes:
+        b = c["behaviour"]
+        run.violation("%s: the server process died (%s) while handling this dialogue" % (what, "; ".join(c["signature"]) or "rc=%s" % c["rc"]),
+                      {"behaviour": b, "crash": {k: c[k] for k in ("rc", "signature", "stderr_tail")}, "replay_kind": "smtp"})
+
+
+def replay_and_validate_crashes(run, vh, behaviours, label, what_prefix):
+    """like replay_and_validate, but a process death is attributed to the dialogue that caused it and reported"""
+    if not behaviours:
+        return
+    names = sorted({n for b in behaviours for n in b["names"]})
+    payload = [{k: v for k, v in b.items() if k != "_abs"} for b in behaviours]
+    crashes = []
+    tf = run.harness_parallel(vh, "smtp", payload, label, crashes=crashes)
+    byid = {b["id"]: b for b in behaviours}
+    for c in crashes:
+        c["behaviour"] = byid.get(c["behaviour"]["id"], c["behaviour"])
+    report_crashes(run, crashes, what_prefix)
+    res = run.validate("SmtpTrace", TRACE_CFG % dict(mbs=q(names)), tf)
+    run.cov["evaluations"] += len(behaviours)
+    for r in res["rejections"]:
+        b = byid.get(r["trace"], {})
+        ev = r["rejected_event"]
+        what = "%s: store=%s: step #%d %s -> reply %s %s (returned=%s): not explained by the Smtp contract" % (
+            what_prefix, b.get("store"), r["rejected_event_index"],
+            json.dumps({k: ev.get(k) for k in ("a", "c", "k", "verb", "arg", "complete") if k in ev}), ev.get("code"), ev.get("cls"), ev.get("returned"))
+        run.violation(what, {"behaviour": b, "rejection": r, "replay_kind": "smtp"})
+    return res
+
+
+def cut_variants(beh, every, rng):
+    """all behaviours obtained from a valid dialogue by cutting the client stream: steps before the cut are played
+    normally, the cut step sends a prefix of its bytes and disconnects.  every: 1 = every byte offset;
+    n > 1 = every command boundary +-2 bytes and every n-th byte"""
+    out = []
+    steps = beh["steps"]
+    for j, st in enumerate(steps):
+        data = st["send"]
+        n = len(data)
+        offs = set(range(0, n + 1)) if every == 1 else ({0, 1, 2, n - 2, n - 1, n} | set(range(0, n + 1, every)))
+        for p in sorted(o for o in offs if 0 <= o <= n):
+            abs_ = dict(st["abs"])
+            abs_["complete"] = (p == n)
+            abs_["cutat"] = p
+            cut = {"kind": "cut", "abs": abs_, "send": data[:p]}
+            out.append(dict(beh, id="%s-cut%d.%d" % (beh["id"], j, p), steps=steps[:j] + [cut]))
+    return out
+
+
+# --------------------------------------------------------------------------- C03
+def c03(run, args):
+    if args.replay:
+        return replay_file(run, args)
+    quick = run.tier == "quick"
+    vh = run.build_harness()
+    allmail = ("ok", "badsyntax", "sizebig", "sizebad", "badaddr", "origin", "null", "sizeok")
+    run.model_check("GenSmtp", gen_cfg(ALL_CMDS, 0, "mc", mailkinds=allmail, rcptkinds=("a1", "a2", "b", "c", "rej", "bad"),
+                                       bodykinds=("ok", "nohdr", "unparseable", "big"), maxrcpts=(0, 1, 2, 3)), label="GenSmtp(contract model)")
+    # (1) every edge of the state graph over the full alphabet (malformed lines, AUTH sub-dialogues, ...)
+    tour = run.generate("GenSmtp", gen_cfg(ALL_CMDS, 80, "tour", mailkinds=allmail, rcptkinds=("a1", "rej", "bad") if quick else ("a1", "a2", "c", "rej", "bad"),
+                                           bodykinds=("ok", "nohdr", "unparseable"), maxrcpts=(1,) if quick else (1, 2), bound="Bound1" if quick else "Bound"), workers=4)
+    # (2) long random dialogues over the full alphabet
+    sim = run.generate("GenSmtp", gen_cfg(ALL_CMDS, 50 if quick else 80, "sim", mailkinds=allmail, rcptkinds=("a1", "a2", "b", "c", "rej", "bad"),
+                                          bodykinds=("ok", "nohdr", "unparseable")), simulate={"num": 300, "depth": 51 if quick else 81})
+    sim = sim[:150 if quick else 1500]
+    # (3) valid multi-transaction dialogues, cut at byte offsets
+    valid = run.generate("GenSmtp", gen_cfg(["helo", "mail", "rcpt", "data", "rset", "quit"], 18, "sim", mailkinds=("ok",), rcptkinds=("a1", "b"), bodykinds=("ok",),
+                                            only_ok=True), simulate={"num": 3000, "depth": 19, "seed": run.seed + 7})
+    valid = [x for x in valid if sum(1 for a in x if a["c"] == "body") >= 2 and x[-1]["c"] == "quit" and len(x) <= 14]
+    valid = valid[:3 if quick else 12]
+    run.cov["distinct_nontrivial"] += len({json.dumps(x, sort_keys=True) for x in tour + sim if len(x) >= 3})
+    run.cov["exhaustive"] = True
+    mk = lambda rng: Concretiser(rng, naming="local", policy=POLICIES[0], max_rcpt=3)
+    stores = (lambda i: ["mem", "file"][(i + run.seed) % 2:][:1]) if quick else (lambda i: ["mem", "file"])
+    beh = behaviours_from(run, tour, lambda i: [mk], stores, "tour")
+    beh += behaviours_from(run, sim, lambda i: [mk], stores, "sim")
+    vb = behaviours_from(run, valid, lambda i: [lambda rng: Concretiser(rng, naming="local", policy=POLICIES[0], max_rcpt=3, mixed_verbs=False)],
+                         lambda i: ["mem", "file"], "valid")
+    cuts = []
+    for b in vb:
+        cuts += cut_variants(b, 5 if quick else 1, random.Random(run.seed))
+    run.cov["distinct_nontrivial"] += len(cuts)
+    run.cov["cut_points"] = len(cuts)
+    run.cov["samples"] = [tour[len(tour) // 2], sim[0][:14], {"cut": cuts[len(cuts) // 2]["id"], "prefix": cuts[len(cuts) // 2]["steps"][-1]["send"][-30:]}] if tour and sim and cuts else []
+    replay_and_validate_crashes(run, vh, beh + cuts, "c03", "C03 SMTP sequencing/isolation/atomicity")
+    run.cov["rule"] = ("(1) TLC walks every (state, command) edge of the Smtp contract over the full alphabet (valid, out-of-order, malformed, over-long (70 KB), binary lines, AUTH "
+                       "PLAIN/LOGIN sub-dialogues, mixed-case verbs by seed), each followed by a delivery that exposes stale envelope/session state; (2) long simulated dialogues; "
+                       "(3) TLC-generated valid multi-transaction dialogues cut after byte offsets of the client stream (quick: every command boundary +-2 and every 5th byte; thorough: every byte). "
+                       "Every line must get exactly one well-formed reply of the contract's class; after every line / after the cut the whole store must be the contract's; "
+                       "a message is only stored by a completely transmitted DATA block; the server process must survive.  distinct = distinct abstract dialogue / cut point")
+    run.assumptions += ["replies are constrained by class (2xx/3xx vs 4xx/5xx) and RFC line grammar, not wording", "over-long lines tested at 70 000 bytes (no 1 MiB line)",
+                        "the dialogues run in a child process; a crash is attributed to the dialogue that was running"]
+
+
+# --------------------------------------------------------------------------- C06
+def c06(run, args):
+    if args.replay:
+        return replay_file(run, args)
+    quick = run.tier == "quick"
+    vh = run.build_harness()
+    mk_ = ("ok", "sizeok", "sizebig", "sizebad")
+    bk_ = ("ok", "fitlarge", "big")
+    run.model_check("GenSmtp", gen_cfg(["helo", "mail", "rcpt", "data", "rset", "quit"], 0, "mc", mailkinds=mk_, rcptkinds=("a1", "b"), bodykinds=bk_, maxrcpts=(2,)),
+                    label="GenSmtp(size classes)")
+    tour = run.generate("GenSmtp", gen_cfg(["helo", "mail", "rcpt", "data", "rset"], 80, "tour", mailkinds=mk_, rcptkinds=("a1",), bodykinds=bk_, maxrcpts=(2,),
+                                           bound="Bound"), workers=4)
+    tour = [x for x in tour if any(a["c"] == "body" and a["k"] in ("big", "fitlarge") for a in x) or any(a["c"] == "mail" and a["k"] != "ok" for a in x)]
+    run.cov["distinct_nontrivial"] += len({json.dumps(x, sort_keys=True) for x in tour})
+    run.cov["exhaustive"] = True
+    limits = [1000, 5000, 100000] + ([] if quick else [10240000])
+    reps = 1 if quick else 4
+
+    def configs(i):
+        out = []
+        for li, lim in enumerate(limits):
+            if lim > 100000 and i % 40:
+                continue        # the default 10 MB limit: a sample only (bodies of 10-100 MB)
+            for r in range(reps):
+                out.append(lambda rng, lim=lim: Concretiser(rng, naming="local", policy=POLICIES[0], max_rcpt=3, max_bytes=lim))
+        return out
+
+    stores = (lambda i: ["mem", "file"][(i + run.seed) % 2:][:1]) if quick else (lambda i: ["mem", "file"])
+    beh = behaviours_from(run, tour, configs, stores, "size")
+    run.cov["samples"] = [tour[len(tour) // 2]] if tour else []
+    replay_and_validate(run, vh, beh, "c06", "C06 maximum message size")
+    run.cov["rule"] = ("TLC walks every edge of the Smtp contract restricted to the size-relevant classes (MAIL with SIZE absent / within / = limit / above / unparsable; "
+                       "DATA blocks small / 300-600 bytes under the limit / 300-600 bytes, 2x, 10x over it), each followed by a further small transaction on the same connection "
+                       "(the session stays usable); limits 1000, 5000, 100000 bytes (thorough also the default 10240000); concrete sizes drawn by seed, several repetitions per edge. "
+                       "MAIL with SIZE > limit must be refused, an oversized DATA block must get a 4xx/5xx reply and store nothing, anything within the limit is accepted and stored")
+    run.assumptions += ["sizes within +-300 bytes of the limit are not tested (the size may legitimately be counted with or without CRLF expansion)"]
